@@ -30,6 +30,7 @@ from ..core import digest
 from ..tlc import run_tlc, TLCFailure
 
 SCALE = 10 ** 8
+DSCALE = 10 ** 6
 NOVAL = -100000000
 TOL = 1e-9
 GW_ACTS = [(-1, 0), (0, -1), (0, 0), (0, 1), (1, 0)]
@@ -62,6 +63,7 @@ INVARIANT Emit
 INVARIANT TypeOK
 INVARIANT WellFormedState
 INVARIANT WellFormedInit
+INVARIANT WellFormedModel
 """
 DOM_CFG = """INIT Init
 NEXT Next
@@ -250,13 +252,35 @@ def dom_cases(rng, tier):
             rows = rand_layout(rng, w, h, ".#shgc", [6, 2, 1, 1, 1, 2], ["s"])
             tag = "random"
         cases.append(dict(dom="HeavenOrHell", rows=rows, CN=cn, CD=cd, SC=sc, HR=hr, LR=lr, GN=gn, GD=gd, tag=tag,
-                          rep=dict(opts="explicit", grid=rng.choice(["plain", "indented"]))))
+                          rep=dict(opts="explicit", grid=rng.choice(["plain", "indented"]), disc=rng.choice(["default", "explicit"]))))
     return cases
 
 
 # =============================================================================================
 # building the real objects
 # =============================================================================================
+DEFAULT_DISCOUNT = {"GridWorld": (1, 1), "WindyGridWorld": (99, 100), "LoadUnload": (99, 100), "HeavenOrHell": (19, 20),
+                    "CliffWalking": (1, 1)}
+
+
+def uses_default_discount(case):
+    """True when build() leaves discount_rate to the constructor default (the configured rate IS that default)."""
+    dom, rep_ = case["dom"], case.get("rep", {})
+    if dom == "CliffWalking":
+        return True
+    if DEFAULT_DISCOUNT.get(dom) != (case["GN"], case["GD"]):
+        return False
+    if dom == "LoadUnload":
+        return rep_.get("opts") == "default" and case["n"] == 8
+    if dom == "HeavenOrHell":
+        return case["rows"] is None or rep_.get("disc") == "default"
+    return rep_.get("opts") == "default"
+
+
+def gamma_shape(case):
+    return ("gamma=1" if case["GN"] == case["GD"] else "gamma<1") + (":constructor-default" if uses_default_discount(case) else ":explicit")
+
+
 def build(case):
     dom = case["dom"]
     rep = case.get("rep", {})
@@ -282,14 +306,16 @@ def build(case):
             kw["step_cost"] = case["SC"]
         if not (rep.get("opts") == "default" and sp == 1):
             kw["success_prob"] = sp
-        if not (rep.get("opts") == "default" and gamma == 1.0):
+        if not uses_default_discount(case):
             kw["discount_rate"] = gamma
         return GridWorld(tiles, **kw)
     if dom == "WindyGridWorld":
         from msdm.domains.gridmdp.windygridworld import WindyGridWorld
         rows = case["rows"]
         grid = "\n".join(rows) if rep.get("grid") != "indented" else "\n" + "\n".join("        " + r + "  " for r in rows) + "\n    "
-        kw = dict(wind_probability=case["WN"] / case["WD"], discount_rate=gamma)
+        kw = dict(wind_probability=case["WN"] / case["WD"])
+        if not uses_default_discount(case):
+            kw["discount_rate"] = gamma
         if case["fr"] is not None:
             kw["feature_rewards"] = {f: r for f, r in case["fr"]}
         if not (rep.get("opts") == "default" and case["SC"] == -1 and case["BC"] == -1):
@@ -317,8 +343,9 @@ def build(case):
             return HeavenOrHell()
         rows = case["rows"]
         grid = "\n".join(rows) if rep.get("grid") != "indented" else "\n" + "\n".join("            " + r for r in rows) + "\n            "
-        return HeavenOrHell(coherence=case["CN"] / case["CD"], discount_rate=gamma, step_cost=case["SC"],
-                            heaven_reward=case["HR"], hell_reward=case["LR"], grid=grid)
+        kw = {} if uses_default_discount(case) else dict(discount_rate=gamma)
+        return HeavenOrHell(coherence=case["CN"] / case["CD"], step_cost=case["SC"],
+                            heaven_reward=case["HR"], hell_reward=case["LR"], grid=grid, **kw)
     raise ValueError(dom)
 
 
@@ -393,6 +420,7 @@ def _observe(case, mutate, np):
         return d
     idx = {s: i for i, s in enumerate(sl)}
     aidx = {a: i for i, a in enumerate(al)}
+    d["discount"] = num(getattr(obj, "discount_rate", None))
     d["states"] = [lab(s) for s in sl]
     d["actions"] = [lab(a) for a in al]
     d["abs"], d["acts"], d["rows"] = [], [], []
@@ -447,7 +475,7 @@ def _observe(case, mutate, np):
         try:
             from msdm.algorithms import ValueIteration
             valued = dom == "GridWorld" and case["GN"] == case["GD"]
-            res = ValueIteration(max_residual=1e-10 if valued else 1e-5, max_iterations=20000).plan_on(obj)
+            res = ValueIteration(max_residual=1e-10 if valued else VI_EPS, max_iterations=VI_CAP).plan_on(obj)
             d["vi"] = {"V": [num(res.state_value[s]) for s in sl], "initial_value": num(res.initial_value),
                        "iterations": int(res.iterations)}
             pol = res.policy
@@ -508,6 +536,9 @@ def wf_record(case, d):
         rec["RF"].append([[1 if (p is None or not p > 0 or (r is not None and math.isfinite(r))) else 0 for (_, _, p, r) in row]
                           for row in d["rows"][s]])
     rec["I"] = [[t + 1, q(p)] for (t, _, p) in d["init"]]
+    g = d.get("discount")
+    rec.update(GN=case["GN"], GD=case["GD"], DS=DSCALE,
+               DQ=int(round(g * DSCALE)) if g is not None and math.isfinite(g) and abs(g) <= 2 else -1)
     if d["obs"] is not None:
         rec["NO"] = max(1, len(d["olist"]))
         rec["O"] = [[[[o + 1, q(p)] for (o, _, p) in ent] for ent in per_a] for per_a in d["obs"]]
@@ -795,6 +826,7 @@ def judge_common(case, d, wf, f):
     dom = case["dom"]
     cor = corner(case)
     ok = True
+    disc_bad = False
     if d["error"] is not None:
         e = d["error"]
         f.violation(f"C20:{dom}.{e['site']}:{e['exc']}:{cor}",
@@ -814,6 +846,13 @@ def judge_common(case, d, wf, f):
         for cl in summ["initbad"]:
             ok = False
             f.violation(f"C20:{dom}.initial_state_dist:{cl}:{cor}", f"{dom} {describe(case)}: {cl}: {d['init']}"[:400], {"clause": cl})
+        f.count("discount_rates_read_back_and_compared")
+        for cl in summ["modelbad"]:
+            disc_bad = True
+            f.violation(f"C20:{dom}.discount_rate:{cl}:{gamma_shape(case)}",
+                        f"{dom} {describe(case)}: constructed with discount rate {case['GN']}/{case['GD']} "
+                        f"({'constructor default' if uses_default_discount(case) else 'passed explicitly'}), the object reports {d.get('discount')}",
+                        {"clause": cl, "configured": [case["GN"], case["GD"]], "read_back": d.get("discount")})
     # --- arrays
     arrays = d["arrays"]
     for name, arr in arrays.items():
@@ -844,7 +883,52 @@ def judge_common(case, d, wf, f):
             ok = False
             f.violation(f"C20:ValueIteration.plan_on({dom}):result-not-finite:{cor}",
                         f"{dom} {describe(case)}: planned values not finite at states {badv[:3]} / initial value {vi['initial_value']}", {})
-    return ok
+        elif ok and case["GN"] < case["GD"] and vi["iterations"] < VI_CAP - 10:
+            ok = judge_plan_discounted(case, d, vi, f) and ok
+    return ok and not disc_bad
+
+
+VI_CAP = 20000
+VI_EPS = 1e-5
+
+
+def judge_plan_discounted(case, d, vi, f):
+    """Planning clause at the CONFIGURED discount rate GN/GD (not the one read back from the object).
+
+    ValueIteration(max_residual=eps) stops when |V - T V| <= eps and returns V, where T is the Bellman
+    optimality operator of the planned model; absorbing states are worth 0.  So on the dumped functional
+    interface, at the configured discount, V(s) = max_a sum_t p (r + gamma V(t)) must hold within
+    eps + float noise (1e-9 relative to the magnitudes involved)."""
+    dom = case["dom"]
+    g = case["GN"] / case["GD"]
+    V = vi["V"]
+    av = d["arrays"]["absorbing_state_vec"]
+    vmax = max([abs(v) for v in V] + [1.0])
+    f.count("discounted_plans_checked_against_the_configured_discount")
+    for s in range(len(V)):
+        if av[s]:
+            if abs(V[s]) > TOL:
+                f.violation(f"C20:ValueIteration.plan_on({dom}):absorbing-state-not-worth-zero:{gamma_shape(case)}",
+                            f"{dom} {describe(case)}: value {V[s]} at absorbing state {d['states'][s]}", {})
+                return False
+            continue
+        best, scale = None, vmax
+        for ent in d["rows"][s]:
+            if any(t < 0 and p is not None and p > 0 for (t, _, p, _) in ent) or any(p is None or (p > 0 and r is None) for (_, _, p, r) in ent):
+                best = None
+                break
+            qa = sum(p * (r + g * V[t]) for (t, _, p, r) in ent if p > 0)
+            scale = max([scale] + [abs(r) for (_, _, p, r) in ent if p > 0])
+            best = qa if best is None or qa > best else best
+        if best is None:
+            continue
+        if abs(V[s] - best) > VI_EPS + TOL * scale * 4:
+            f.violation(f"C20:ValueIteration.plan_on({dom}):values-not-optimal-at-the-configured-discount:{gamma_shape(case)}",
+                        f"{dom} {describe(case)}: configured discount {case['GN']}/{case['GD']} (object reports {d.get('discount')}): "
+                        f"V{d['states'][s]} = {V[s]} but max_a sum p (r + gamma V') = {best}",
+                        {"state": str(d["states"][s]), "V": V[s], "lookahead": best})
+            return False
+    return True
 
 
 def judge_arrays(case, d, f):
@@ -1132,6 +1216,12 @@ def wf_crosscheck(ctx, recs, owner, wf, every=5):
         for s, cl in got.items():
             if bad.get(s, set()) != cl:
                 raise TLCFailure(f"C20_WellFormed and the python judge disagree on extracted system {k} state {s}: {cl} vs {bad.get(s)}")
+        summ = wf[owner[k]]["summary"]
+        if summ is not None:
+            r = recs[k]
+            py_ok = abs(F(r["DQ"], r["DS"]) - F(r["GN"], r["GD"])) < F(1, r["DS"])
+            if py_ok != (not summ["modelbad"]):
+                raise TLCFailure(f"C20_WellFormed and the python judge disagree on the discount clause of extracted system {k}")
         if recs[k]["tag"] == "GridWorld" and set(bad) != set(got):
             raise TLCFailure(f"C20_WellFormed and the python judge disagree on extracted system {k}: {sorted(got)} vs {sorted(bad)}")
         ctx.count("wellformed_crosschecks")
@@ -1394,5 +1484,22 @@ def selftest(ctx):
     f = rerun(i, d)
     hit = any("reward" in st for st, _ in f.drifts) or any("reward_matrix" in v[0] for v in f.violations)
     print(f"  selftest 7 (Windy reward altered): {'detected' if hit else 'MISSED'}")
+    ok &= hit
+    # (8) the discount rate read back from a (discounted) object is not the configured one
+    i = pick(lambda i: cases[i]["GN"] < cases[i]["GD"] and isinstance(dumps[i].get("vi"), dict) and "V" in dumps[i]["vi"]
+             and any(abs(v) > 0.1 for v in dumps[i]["vi"]["V"]))
+    d = copy.deepcopy(dumps[i])
+    d["discount"] = 1.0
+    f = rerun(i, d)
+    hit = any("discount-rate-not-the-configured-one" in v[0] for v in f.violations)
+    print(f"  selftest 8 (object reports discount 1.0 instead of the configured one): {'detected' if hit else 'MISSED'}")
+    ok &= hit
+    # (9) a planned value is off: not a fixed point of the optimality equation at the configured discount
+    d = copy.deepcopy(dumps[i])
+    k = next(k for k, v in enumerate(d["vi"]["V"]) if abs(v) > 0.1)
+    d["vi"]["V"][k] *= 1.01
+    f = rerun(i, d)
+    hit = any("values-not-optimal-at-the-configured-discount" in v[0] for v in f.violations)
+    print(f"  selftest 9 (planned value off by 1%): {'detected' if hit else 'MISSED'}")
     ok &= hit
     return ok
